@@ -180,8 +180,18 @@ CrossFileShapes ==
            !.group = "c12.x", !.gchecks = <<GCheck("fn", "C12", "C12.text_independent")>>]
   IN <<mk("plain", <<XRoot>>, FALSE), mk("front", <<XFront, XRoot>>, FALSE), mk("back.sorted", <<XRoot, XFront>>, TRUE)>>
 
+\* two selected types which both reach a message WITHOUT fields (its placeholder attribute carries a path per use)
+EmptyUseMsgs == <<EmptyM, Msg("Root", <<Fld("Str", 1, "string"), MsgF("Nothing", 2, "Empty")>>, <<>>),
+                  Msg("Other", <<Fld("Num", 1, "int32"), NonNull(MsgF("Nothing", 2, "Empty")), Rep(MsgF("Subs", 3, "Empty"))>>, <<>>)>>
+EmptyUseShapes ==
+  LET mk(id, types, root) ==
+        [Shape("c12.e." \o id \o "." \o root, Desc(EmptyUseMsgs), [BaseCfg EXCEPT !.types = types]) EXCEPT
+           !.root = root, !.run = "c12.e." \o id, !.group = "c12.e", !.gchecks = <<GCheck("fn", "C12", "C12.text_independent")>>]
+  IN <<mk("1", <<"Root">>, "Root"), mk("2", <<"Other">>, "Other"), mk("3", <<"Root", "Other">>, "Root"), mk("3", <<"Root", "Other">>, "Other"),
+       mk("4", <<"Other", "Root", "Empty">>, "Root"), mk("4", <<"Other", "Root", "Empty">>, "Other")>>
+
 GenSelectShapes(long) ==
-  CrossFileShapes \o
+  CrossFileShapes \o EmptyUseShapes \o
   IF long THEN SelShapesOf(FALSE, {"none", "msg", "dep", "rev"}) \o SelShapesOf(TRUE, {"none", "msg", "dep", "rev"})
   ELSE SelShapesOf(FALSE, {"none", "dep", "rev"}) \o SelShapesOf(TRUE, {"msg", "rev"})
 
@@ -258,7 +268,9 @@ ChanRoot == Msg("Root", <<Fld("Str", 1, "string"), Fld("Extra", 2, "string"), Ms
 ChanOther == Msg("Other", <<Fld("Num", 1, "int32")>>, <<>>)
 ChanCfg == [BaseCfg EXCEPT !.types = <<"Root", "Other">>, !.exclude = <<"Root.Extra">>, !.computed = <<"Root.Str", "Other.Num">>,
                            !.required = <<"Leaf.Str">>, !.sensitive = <<"Root.Sub.Str", "Root.Alpha">>, !.separate = TRUE,
-                           !.durationcustom = "Duration", !.sort = TRUE]
+                           !.durationcustom = "Duration", !.sort = TRUE,
+                           \* a file-only switch whose effect depends on a two-channel list (computed_fields)
+                           !.usfu = TRUE]
 
 ChanAlts(long) ==
   <<Alt("all.cli", "C16.channel_equiv", ChanAll("cli"), 0, <<>>), Alt("all.both", "C16.cli_wins", ChanAll("both"), 0, <<>>)>>
@@ -304,7 +316,11 @@ DetAlts(long) ==
   [k \in 1..(IF long THEN 40 ELSE 10) |-> Alt("repeat." \o ToString(k), "C14.same_sha", <<>>, 0, <<>>)]
   \o [k \in 1..(IF long THEN 20 ELSE 5) |-> Alt("perm." \o ToString(k), "C14.same_sha", <<>>, k, <<>>)]
   \o [k \in 1..(IF long THEN 10 ELSE 3) |-> Alt("cliperm." \o ToString(k), "C14.same_sha", ChanAll("cli"), 100 + k, <<>>)]
+\* separate package, short default_package_name resolved by import_path_overrides which also holds an unrelated entry
+\* whose key is a prefix of the struct package's import path (exact-match lookup: the second entry is never used)
+DetSepCfg == [BaseCfg EXCEPT !.types = <<"Root", "Leaf">>, !.separate = TRUE, !.importoverride = TRUE, !.extraoverride = TRUE]
 GenDetShapes(long) == <<
+  [Shape("c14.sepovr", Desc(<<DetLeaf, ChanRoot, ChanOther>>), [DetSepCfg EXCEPT !.durationcustom = "Duration", !.alts = DetAlts(long)]) EXCEPT !.root = "Root"],
   [Shape("c14.embeds", Desc(DetEmbeds), [BaseCfg EXCEPT !.types = <<"Outer">>, !.alts = DetAlts(long)]) EXCEPT !.root = "Outer"],
   [Shape("c14.embeds.sorted", Desc(DetEmbeds), [BaseCfg EXCEPT !.types = <<"Outer">>, !.sort = TRUE, !.alts = DetAlts(long)]) EXCEPT !.root = "Outer", !.run = "c14.embeds.sorted"],
   [Shape("c14.multi", Desc(<<DetLeaf, ChanRoot, ChanOther>>), [DetCfg EXCEPT !.alts = DetAlts(long)]) EXCEPT !.root = "Root"],
@@ -329,7 +345,9 @@ SortRootFields == <<Fld("Zed", 1, "string"), InOneof(Fld("BranchC", 2, "int32"),
 \* oneof groups are named like fields on purpose: holders Zed2 / Alpha2 would sort differently than declared
 SortRoot == Msg("Root", <<Fld("Str", 1, "string"), InOneof(Fld("BranchC", 2, "int32"), "Grp2"), InOneof(Fld("BranchD", 3, "string"), "Grp2"),
                           Fld("Alpha", 4, "int32"), InOneof(Fld("BranchA", 5, "string"), "Grp"), InOneof(MsgF("BranchB", 6, "Leaf"), "Grp"),
-                          NonNull(Embed(MsgF("Inner", 7, "Inner"))), Rep(Fld("Items", 8, "string"))>>, <<"Grp2", "Grp">>)
+                          NonNull(Embed(MsgF("Inner", 7, "Inner"))), Rep(Fld("Items", 8, "string")),
+                          \* two names which differ in case only (a total order must separate them)
+                          Fld("FooBar", 9, "string"), Fld("foobar", 10, "int32")>>, <<"Grp2", "Grp">>)
 SortInner == Msg("Inner", <<Fld("Zed", 1, "bool"), Fld("Flag", 2, "bool")>>, <<>>)
 \* a message with two oneof groups declared against the alphabet, reached TWICE from a selected type
 SortPair == Msg("Pair", <<InOneof(Fld("BranchC", 1, "string"), "Zed"), InOneof(Fld("BranchD", 2, "int32"), "Zed"),
@@ -408,10 +426,13 @@ SepTriple(sp) ==
                                        !.group = "c13." \o sp.id, !.pair = pr(role),
                                        !.gchecks = <<GCheck("schema", "C13", "C13.same_behaviour")>>]
   IN <<mk("0same", sp.cfg, "base"),
-       mk("1sep", [sp.cfg EXCEPT !.separate = TRUE], "variant"),
-       mk("2sepovr", [sp.cfg EXCEPT !.separate = TRUE, !.importoverride = TRUE], "variant"),
+       \* (import_path_overrides also holds an unrelated entry whose key is a prefix of the struct package's path)
+       mk("1sep", [sp.cfg EXCEPT !.separate = TRUE, !.extraoverride = TRUE], "variant"),
+       mk("2sepovr", [sp.cfg EXCEPT !.separate = TRUE, !.importoverride = TRUE, !.extraoverride = TRUE], "variant"),
        \* a versioned import path: the last element contains a dot (.../tp.v1)
-       mk("3sepdot", [sp.cfg EXCEPT !.separate = TRUE, !.dottedimport = TRUE], "variant")>>
+       mk("3sepdot", [sp.cfg EXCEPT !.separate = TRUE, !.dottedimport = TRUE], "variant"),
+       \* the target package is NAMED like the struct package (another directory, the same package name)
+       mk("4sepname", [sp.cfg EXCEPT !.separate = TRUE, !.samename = TRUE], "variant")>>
 
 GenSepShapes == FlattenSeq([i \in DOMAIN SepSel |-> SepTriple(SepSel[i])])
 
@@ -455,8 +476,18 @@ GenAddrSeparate ==
      Shape("c11.sep." \o AddrOptions[o] \o "." \o ToString(k), AddrDesc,
            [AddrCfg(AddrOptions[o], <<"Leaf.Str", "Root.Sub.Num", "Mid.Sub", "Outer.Kind">>[k]) EXCEPT !.separate = TRUE])]])
 
+\* TWO options for the same field, one keyed by the full path and the other by Message.field (both ways round), with the
+\* default plan modifier of computed fields switched on: each option still hits what it addresses and nothing else
+GenAddrMixed == <<
+  Shape("c11.mix.1", AddrDesc, [BaseCfg EXCEPT !.computed = <<"Root.Sub.Str">>, !.planmodifiers = <<[k |-> "Leaf.Str", v |-> <<"2">>]>>, !.usfu = TRUE]),
+  Shape("c11.mix.2", AddrDesc, [BaseCfg EXCEPT !.computed = <<"Leaf.Str">>, !.planmodifiers = <<[k |-> "Root.Sub.Str", v |-> <<"2">>]>>, !.usfu = TRUE]),
+  Shape("c11.mix.3", AddrDesc, [BaseCfg EXCEPT !.computed = <<"Root.Sub2.Num", "Leaf.Str">>, !.validators = <<[k |-> "Leaf.Num", v |-> <<"1">>]>>,
+                                               !.required = <<"Root.Subs.Str">>, !.sensitive = <<"Leaf.Num">>, !.usfu = TRUE]),
+  Shape("c11.mix.4", AddrDesc, [BaseCfg EXCEPT !.nameoverrides = <<KV("Leaf.Str", "ovr_t"), KV("Root.Sub.Str", "ovr_p")>>, !.exclude = <<"Root.Sub2.Str">>,
+                                               !.computed = <<"Root.Sub.Str">>, !.usfu = TRUE]) >>
+
 GenAddrShapes ==
-  <<Shape("c11.base", AddrDesc, BaseCfg)>> \o GenAddrSeparate
+  <<Shape("c11.base", AddrDesc, BaseCfg)>> \o GenAddrSeparate \o GenAddrMixed
   \o FlattenSeq([o \in DOMAIN AddrOptions |-> [k \in DOMAIN AddrKeys |->
         Shape("c11." \o AddrOptions[o] \o "." \o ToString(k), AddrDesc, AddrCfg(AddrOptions[o], AddrKeys[k]))]])
   \o GenAddrTwoRoots
